@@ -518,7 +518,7 @@ def run(ctx):
         s2 = evm.run(fm2)
         evm.objects = {}
         ups = [c for c in s2.calls if c[0] in ("method:update", "bits.config.Config.update") and isinstance(c[2], dict)]
-        got = (rules.unfz(ups[-1][2]["**"]) if "**" in ups[-1][2] else dict(ups[-1][2])) if ups else None
+        got = _given_options(ctx, ups[-1]) if ups else None
         want = {"network": "testnet", "output_format": "bin"}
         okm = isinstance(got, dict) and got == want and not (ups[-1][4] or ups[-1][5])
         why = "with --network testnet and -0b given explicitly (everything else at its default) config.update receives %s, expected %s" % (tm.show(got)[:200], want)
@@ -534,7 +534,7 @@ def run(ctx):
             s3 = evm.run(fm2)
             evm.objects = {}
             ups = [c for c in s3.calls if c[0] in ("method:update", "bits.config.Config.update") and isinstance(c[2], dict)]
-            got = (rules.unfz(ups[-1][2]["**"]) if "**" in ups[-1][2] else dict(ups[-1][2])) if ups else None
+            got = _given_options(ctx, ups[-1]) if ups else None
             want = {k: "given_" + k}
             okm = isinstance(got, dict) and got == want and not (ups[-1][4] or ups[-1][5])
             why = "with only %s given explicitly config.update receives %s, expected %s" % (k, tm.show(got)[:200], want)
@@ -550,6 +550,19 @@ def run(ctx):
     check_no_attribute_aliasing(ctx)
     check_load_config(ctx, keys)
     check_formats(ctx)
+
+
+def _given_options(ctx, call):
+    """The options a `config.update(...)` call record hands over, in the calling convention Config.update itself declares:
+    keyword arguments (`update(**kwargs)`) or one positional mapping (`update(options)`)."""
+    fu = ctx.fn("bits.config.Config.update")
+    if fu.node.args.kwarg is not None:
+        return rules.unfz(call[2]["**"]) if "**" in call[2] else dict(call[2])
+    pos = list(call[1][1:]) if call[0].startswith("method:") else [a for a in call[1] if not (isinstance(a, T) and a.op == "param" and a.args[0] == "self")]
+    if call[2] or len(pos) != 1:
+        return None
+    v = rules.unfz(pos[0])
+    return v if isinstance(v, dict) else None
 
 
 def check_base_command(ctx, fm):
@@ -708,7 +721,8 @@ def check_load_config(ctx, keys):
     for kwargs in cases:
         evu = ctx.evaluator(opaque={"bits.config.Config.__init__"})
         evu.objects = {selfp: dict(current)}
-        su = evu.run(fu, {"self": selfp, "kwargs": dict(kwargs)})
+        optp = [pn for pn in fu.params() if pn != "self"]
+        su = evu.run(fu, {"self": selfp, (optp[0] if len(optp) == 1 else "kwargs"): dict(kwargs)})
         calls = [c for c in su.calls if c[0] == "bits.config.Config.__init__" and tm.land(list(c[4])) is True]
         want = dict(current)
         want.update(kwargs)
